@@ -115,7 +115,11 @@ pub fn pipelines(ctx: &mut Ctx, rng: &mut Rng, idx: &mut u64) {
     for _ in 0..nseq {
         let k = rng.range(2, 14);
         let mut s = Vec::new();
+        // (one sequence in five has stray line ends between two messages — an extra CRLF after a message, as some clients send:
+        //  not part of the grammar of a request line, so the message that follows is refused, wherever the read boundaries fall)
+        let stray = rng.chance(1, 5);
         for j in 0..k {
+            if stray && j > 0 && rng.chance(1, 3) { s.extend_from_slice(*rng.pick(&[&b"\r\n"[..], b"\r\n\r\n", b"\n", b"\r\n\r\n\r\n"])); }
             s.extend_from_slice(format!("GET /{j} HTTP/1.1\r\n").as_bytes());
             if rng.chance(1, 2) {
                 s.extend_from_slice(b"a: b\r\n");
